@@ -152,7 +152,7 @@ def stmt_label(L, o):
     cls = type(o)
     owner = c01.owner_of(cls, "get_sql")
     if kd == "qb":
-        d = o.__dict__
+        d = lib.state(o)
         sk = ("insert" if d.get("_insert_table") is not None else "update" if d.get("_update_table") is not None
               else "delete" if d.get("_delete_from") else "select")
         return f"{owner}.get_sql[{sk}]"
